@@ -22,6 +22,12 @@ FIXED=[
 ]
 OPEN=[
  # (id, [properties], title, witness)
+ ("K-C06-tail-id-drift",["C04","C06","C15"],
+  "the durable cursor of a consumer in the writer's tail names the block by allocator id, recovery re-derives ids by position: a block handed out but never written (rejected first append on a topic, empty batch opening a topic) that ends up last in its file shifts later ids by one, the persisted tail block is not found after restart and the StrictlyAtOnce consumer starts over (redelivery, no loss). Repair needs block ids (or a position) in the on-disk format: recorded, not repaired.",
+  "append(a,half) x2; append(a,128); append on a 300-byte topic name -> Err; append(a, one byte over a block); batch_read(a,MAX,ckpt); restart -> count(a) = 4, everything redelivered"),
+ ("K-C13-block-id-collision",["C13"],
+  "two instances in one process number their blocks from 1 and share the process-global block tracker (first registration of an id wins): consumption by one instance is credited to the other's file, which the reclaimer then deletes with unconsumed entries in it. Repair needs the tracker keyed by (instance, block id) at ~15 call sites: recorded, not repaired.",
+  "open(0,k0); open(1,k1); instance 0: 5 block-filling appends; instance 1: 5 block-filling appends, batch_read(MAX), append; reclaim tick; restart -> instance 0 has 1 of its 5 entries left"),
 ]
 out={"comment":"Genuine defects of nubskr/walrus found by the checks in /verif. status=open: recorded, not repaired; the matching check prints KNOWN-FINDING and exits 0 for exactly this failing step (predicate of the same id in the engine source). status=fixed: repaired by the named 'fix:' commit in /repo; suppresses nothing. Never written at run time.",
  "findings":[{"id":i,"property":p,"status":"fixed","commit":cm,"title":t,"witness":w,"line":f"fixed: property={p[0]} {cm} {t}"} for i,p,cm,t,w in FIXED]
